@@ -338,9 +338,10 @@ Fixpoint run (n : nat) (fuel : nat) (st : state) (acc : list mtok) : run_res :=
       end
   end.
 
-(* [raw] = the tokenizer's output, the last element being EOF.  The output has at most
-   4 tokens per input token plus the closing blocks; [n] calls are always enough. *)
+(* [raw] = the tokenizer's output, the last element being EOF.  [n] calls are always enough
+   (LayoutTermination.layout_model_terminates: every call that emits a token lowers a potential
+   that starts below 100·|raw| + 8). *)
 Definition layout (raw : list mtok) : run_res :=
   let e := last raw (MTok TEOF 12 0 1 0 0) in
-  let n := (6 * length raw + 10)%nat in
+  let n := (100 * length raw + 10)%nat in
   run n (length raw + 5)%nat (St raw e [] []) [].
